@@ -50,8 +50,9 @@ func (g *gen) typeUse() {
 				add("_ = make(chan " + ts() + ")")
 				add("_ = make([]" + ts() + ", 1)")
 			case 6:
-				add("var f func(" + ts() + ") " + ts() + " = " + fn)
-				add("_ = f")
+				x := g.fresh("f")
+				add("var " + x + " func(" + ts() + ") " + ts() + " = " + fn)
+				add("_ = " + x)
 				g.feat("use_func_value")
 			case 7:
 				add("_ = struct{ f " + ts() + " }{}")
@@ -88,7 +89,7 @@ func (g *gen) typeUse() {
 				}
 			case 13:
 				switch t.kind() {
-				case KSlice, KArray, KMap, KString, KChan:
+				case KSlice, KArray, KMap, KString:
 					add("for range p {\n\t\tbreak\n\t}")
 					g.feat("use_range")
 				case KFunc:
@@ -108,11 +109,13 @@ func (g *gen) typeUse() {
 					}
 				}
 			case 14:
-				add("var x " + ts() + " = " + g.arg(t, 2))
-				add("_ = x")
+				x := g.fresh("x")
+				add("var " + x + " " + ts() + " = " + g.arg(t, 2))
+				add("_ = " + x)
 			case 15:
-				add("x2 := " + g.val(t, 2))
-				add("p = x2")
+				x := g.fresh("x")
+				add(x + " := " + g.val(t, 2))
+				add("p = " + x)
 			case 16:
 				add("_ = func(" + ts() + ") {}")
 				add("_ = func() (_ " + ts() + ") { return }")
